@@ -13,6 +13,10 @@ def main(c):
              vlib.tlc(g.SD, "Sha256RefMC", workers=2, timeout=600))
     c.cov["exhaustive"] = True
     lines = g.hash_lines(rnd, c.pick(600, 30000)) + g.hmac_lines(rnd, c.pick(300, 10000)) + g.pbkdf2_lines(rnd, c.pick(50, 2000)) + g.crc_lines(rnd, c.pick(300, 10000))
+    # very long messages: the bit counter of a context carries into its high word at 2^29 bytes (MD5 and SHA-1 keep two 32-bit words)
+    for alg in ("md5", "sha1", "sha256"):
+        for n in c.pick([2 ** 29 + 12345], [2 ** 29 - 1, 2 ** 29, 2 ** 29 + 12345, 2 ** 30 + 7]):
+            lines.append("hashbig %s %d %d" % (alg, n, rnd.choice([1048573, 1000003, 65536, 99991])))
     c.cov["calls"] = len(lines)
     g.run(c, exe, lines, "hash")
     c.cov["rule"] = ("messages of every length 0..130 and around 55/56/63/64/119/120-byte boundaries (plus 4 KiB and 70 kB), every algorithm, update partitions = one call, "
